@@ -88,7 +88,7 @@ def run(chk):
     lock = os.path.join(PROBE, "Cargo.lock")
     if not os.path.exists(lock):
         shutil.copy(os.path.join(REPO, "Cargo.lock"), lock)
-    t = record("corpus", chk.path("ref.ndjson"), seed=chk.seed, per_type=2, hex=chk.path("corpus.hex"))
+    t = record("corpus", chk.path("ref.ndjson"), seed=chk.seed, per_type=2, synthetic=1, hex=chk.path("corpus.hex"))
     ref = json.loads(open(t).read().splitlines()[0])
     rnd = random.Random(chk.seed)
     if q:
